@@ -630,5 +630,9 @@ def run(pid, tier):
     return rep.finish()
 
 
+
+def replay(path):
+    return vlib.generic_replay(path, lambda: vlib.build_harness("ip", ["ip_harness.c"], link=["-Wl,-z,now"]), "ipdriver")
+
 if __name__ == "__main__":
     sys.exit(run(PID, sys.argv[1] if len(sys.argv) > 1 else "quick"))
